@@ -33,6 +33,15 @@ if __name__ == '__main__' and '--worker' in sys.argv:  # -----------------------
                     out.append(['notfound'])
                 except Exception as e:  # pylint: disable=broad-except
                     out.append(['err', type(e).__name__])
+            elif op[0] == 'classinfo':
+                try:
+                    obj = sys.modules[op[1]]
+                    for part in op[2].split('.'):
+                        obj = getattr(obj, part)
+                    out.append(['cls', bool(inspect.isabstract(obj)), bool(prov.isabstract(obj)),
+                                sorted(getattr(obj, '__abstractmethods__', ())), [c.__qualname__ for c in obj.__mro__[1:]]])
+                except (KeyError, AttributeError):
+                    out.append(['absent'])
             else:
                 _, imod, iqn, ref = op
                 iface = getattr(sys.modules[imod], iqn)
@@ -181,17 +190,54 @@ def conf_diff(impl, spec, dupes: bool, path=()):
 
 
 class Numbering:
-    """Injective numbering of keys / scalars (Python equality classes are kept apart by the generator)."""
+    """Numbering of the keys / scalars of one case (Python equality classes are kept apart by the generator). A string
+    has one number whether it occurs as a key or as a scalar (a section name is a key in `[GROUP.name]` and a scalar in
+    `default = "name"`). After `seed` the numbers are order preserving among strings (Python's string order) and among
+    numbers (numeric order): the model sorts feeds by (priority, provider reference)."""
 
     def __init__(self):
-        self.keys: dict = {}
-        self.scalars: dict = {}
+        self.codes: dict = {}
+
+    @staticmethod
+    def _k(v):
+        return ('str', v) if isinstance(v, str) else (type(v).__name__, v)
+
+    def _code(self, v) -> int:
+        return self.codes.setdefault(self._k(v), len(self.codes))
+
+    def seed(self, values):
+        uniq = {self._k(v): v for v in values}
+        strs = sorted(v for k, v in uniq.items() if k[0] == 'str')
+        nums = sorted((v for k, v in uniq.items() if k[0] != 'str'), key=lambda v: (float(v), type(v).__name__))
+        for v in strs + nums:
+            self._code(v)
+
+    @classmethod
+    def collect(cls, v, out):
+        import collections.abc
+
+        if isinstance(v, collections.abc.Mapping):
+            for k, x in v.items():
+                out.append(str(k))
+                cls.collect(x, out)
+        elif isinstance(v, (list, tuple)):
+            for x in v:
+                cls.collect(x, out)
+        else:
+            out.append(v)
+        return out
+
+    def decode(self, code: int):
+        for k, c in self.codes.items():
+            if c == code:
+                return k[1]
+        raise KeyError(code)
 
     def key(self, k) -> int:
-        return self.keys.setdefault(str(k), len(self.keys))
+        return self._code(str(k))
 
     def scalar(self, v) -> int:
-        return self.scalars.setdefault((type(v).__name__, v), len(self.scalars))
+        return self._code(v)
 
     def enc(self, v):
         import collections.abc
@@ -245,7 +291,7 @@ def toml_dumps(table: dict) -> str:
 
 
 KEYS = ['a', 'b', 'c', 'd', 'e', 'path', 'default', 'params']
-GROUP_KEYS = ['RUNNER', 'REGISTRY']
+GROUP_KEYS = ['RUNNER', 'REGISTRY', 'FEED', 'SINK']
 SECTION_REFS = ['r0', 'r1', 'r2', 'r3']
 LIST_POOL = [2, 3, 4, 5, 'u', 'v', 'w', 2.5, True]
 
@@ -284,13 +330,21 @@ class ConfGen:
         keys = r.sample(KEYS, r.choice([0, 1, 2, 3, 3, 4]))
         return {k: self.value(path + (k,), depth, flip) for k in keys}
 
-    def group(self, flip):
-        """[RUNNER] default = rX + [RUNNER.rX] provider/params/other options"""
+    def group(self, flip, name='RUNNER'):
+        """[RUNNER] default = rX + [RUNNER.rX] provider/params/other options; [FEED]: `default` may be a list of
+        references and the sections carry a `priority`; [SINK]: `apply` / `eval` references beside `default`"""
         r = self.rng
         out = {}
+        feed, sink = name == 'FEED', name == 'SINK'
         if r.random() < 0.6:
             out['default'] = r.choice(SECTION_REFS + ['r4'])
-        for ref in r.sample(SECTION_REFS, r.choice([0, 1, 2, 3])):
+            if feed and r.random() < 0.6:
+                out['default'] = r.sample(SECTION_REFS + ['r4'] * (r.random() < 0.2), r.choice([0, 1, 2, 2, 3]))
+        if sink:
+            for k in ('apply', 'eval'):
+                if r.random() < 0.35:
+                    out[k] = r.choice(SECTION_REFS + ['r4'])
+        for ref in r.sample(SECTION_REFS, r.choice([0, 1, 2, 3, 4] if feed else [0, 1, 2, 3])):
             if r.random() < flip:
                 out[ref] = self.scalar()
                 continue
@@ -298,7 +352,9 @@ class ConfGen:
             if r.random() < 0.6:
                 sec['provider'] = r.choice(['dask', 'pyfunc', 'posix', 'mod:Cls'])
             if r.random() < 0.5:
-                sec['params'] = {k: self.scalar() for k in r.sample(['a', 'b', 'c'], r.randint(0, 2))}
+                sec['params'] = {k: self.scalar() for k in r.sample(['a', 'b', 'c'] + (['priority'] if feed else []), r.randint(0, 2))}
+            if feed and r.random() < 0.6:
+                sec['priority'] = r.choice([0, 1, 2, 2, 5, 7, 1.5, -1])
             for k in r.sample(['a', 'b', 'c', 'd'], r.randint(0, 3)):
                 sec[k] = self.scalar() if r.random() < 0.8 else self.lst()
             out[ref] = sec
@@ -316,7 +372,7 @@ class ConfGen:
             if groups:
                 for g in GROUP_KEYS:
                     if r.random() < 0.7:
-                        src[g] = self.group(flip / 2)
+                        src[g] = self.group(flip / 2, g)
             sources.append(src)
         return sources, groups
 
@@ -370,60 +426,218 @@ def untuple(v):
 # ======================================================================================================= providers
 
 IFC = 'ifc'
+ATTR = {'run': 1, 'extra': 2, 'level': 3, 'work': 10, 'Part': 20}
+
+
+class Facts:
+    """The class objects of one scenario in definition order: for every class statement its own namespace, its bases
+    and its MRO — (a) as the statements sent to the Lean model (`stmts`, Model/BankAbc.lean), (b) judged by the
+    harness' own spec-shaped rule (`unimpl`, `inner`, `abstract`): a class has an unimplemented abstract method iff it
+    is an ABC and for some attribute name the FIRST class of its MRO defining the name defines it abstract; it is
+    abstract in forml's extended sense iff additionally one of its OWN attributes is such a class."""
+
+    def __init__(self):
+        self.stmts: list = []  # [abc, [[name, attr]…], bases, mro]
+        self.ns: list = []  # {attr: ('f', abstract) | ('c', index) | ('o',)}
+        self.mro: list = []  # indices after the class itself
+        self.abc: list = []
+        self.label: list = []  # (module, qualname) for the classinfo job; None = not reported
+        self.index: dict = {}  # (module, qualname) -> table index
+
+    def add(self, label, abc: bool, ns: dict, bases: list) -> int:
+        k = len(self.stmts)
+        mro: list = []
+        for b in bases:
+            for x in [b] + self.mro[b]:
+                if x not in mro:
+                    mro.append(x)
+        enc = []
+        for name, v in ns.items():
+            enc.append([ATTR[name], ['f', bool(v[1])] if v[0] == 'f' else ['c', v[1]] if v[0] == 'c' else 'o'])
+        self.stmts.append(['abc' if abc else 'noabc', enc, list(bases), mro])
+        self.ns.append(dict(ns))
+        self.mro.append(mro)
+        self.abc.append(bool(abc) or any(self.abc[b] for b in bases))
+        self.label.append(label)
+        if label is not None:
+            self.index[label] = k
+        return k
+
+    def resolve(self, k: int, name: str):
+        for x in [k] + self.mro[k]:
+            if name in self.ns[x]:
+                return self.ns[x][name]
+        return None
+
+    def unimpl(self, k: int) -> bool:
+        if not self.abc[k]:
+            return False
+        names = set()
+        for x in [k] + self.mro[k]:
+            names |= set(self.ns[x])
+        return any((self.resolve(k, n) or ('o',))[0] == 'f' and self.resolve(k, n)[1] for n in names)
+
+    def inner(self, k: int) -> bool:
+        return any(v[0] == 'c' and self.unimpl(v[1]) for v in self.ns[k].values())
+
+    def abstract(self, k: int) -> bool:
+        return self.unimpl(k) or self.inner(k)
+
+
+def convert_class(c: dict) -> dict:
+    """class dicts of witnesses recorded before round 4 (`impl`, `shape`) -> members"""
+    if 'run' in c or 'part' in c or 'extra' in c:
+        return c
+    out = {'name': c['name'], 'base': c.get('base'), 'alias': c.get('alias'), 'run': 'impl' if c.get('impl') else None,
+           'extra': None, 'part': None}
+    shape = c.get('shape')
+    if shape == 'inner':
+        out['part'] = 'new'
+    elif shape in ('prop', 'mixin'):
+        out['extra'] = shape
+    if c.get('paths'):
+        out['paths'] = list(c['paths'])
+    return out
 
 
 class Scenario:
     """A generated set of provider modules.
 
-    ifc.py:  Base(provider.Service, path=[…]) abstract, Mid(Base) abstract, optionally Mid2(Base, path=[…])
-    pkN/__init__.py (optionally with __all__), pkN/<sub>.py with classes deriving from Base/Mid/earlier classes
+    ifc.py:  `_Part` (abstract component), `Extra_` (abstract mixin), Base(provider.Service, path=[…]) abstract through
+             an abstract method (`method`), through an abstract inner class only (`inner`, like forml.io.Sink with its
+             Writer) or both; Mid(Base, path=[…]) plain / with an abstract method of its own / overriding the inner class
+             by one that is still abstract
+    pkN/__init__.py (optionally with classes and `__all__`), pkN/<sub>.py with classes deriving from Base / Mid / an
+             earlier class of the module; every class chooses for `run`, `extra`/`level` (method / property / mixin) and the
+             inner class `Part` (new abstract one, assigned abstract one, concrete or still-abstract override, plain
+             non-ABC class) whether it defines, implements or inherits it
+    history: the operations of one process after `import ifc`: ['import', slot] (slot = index into the permuted list of
+             explicitly imported modules) and ['get', interface, reference]
     """
 
-    def __init__(self, base_paths, mid_paths, packages, imports, queries, kind):
-        self.base_paths = base_paths  # path= of Base
-        self.mid_paths = mid_paths
-        self.packages = packages  # {pkg: {'all': [sub…] | None, 'mods': {sub: [cls…]}}}; cls = dict(name, base, alias, impl)
-        self.imports = imports  # list of module names imported explicitly (the order is permuted)
-        self.queries = queries  # [(iface name, reference string)]
+    def __init__(self, ifc, packages, imports, history, kind):
+        self.ifc = ifc  # {'base': 'method'|'inner'|'both', 'mid': 'plain'|'extra'|'still', 'base_paths': […], 'mid_paths': […]}
+        self.packages = packages  # {pkg: {'all': [sub…] | None, 'mods': {sub: [cls…]}}}; sub '' = the package's __init__
+        self.imports = imports  # module names imported explicitly (their order is permuted)
+        self.history = history
         self.kind = kind
+        self.sequence = 'hits-first'
+        self._facts = None
+
+    @property
+    def base_paths(self):
+        return self.ifc['base_paths']
+
+    @property
+    def mid_paths(self):
+        return self.ifc['mid_paths']
+
+    @property
+    def queries(self):
+        return dedupe([(op[1], op[2]) for op in self.history if op[0] == 'get'])
 
     def to_json(self):
-        return {'base_paths': self.base_paths, 'mid_paths': self.mid_paths, 'packages': self.packages,
-                'imports': self.imports, 'queries': [list(q) for q in self.queries], 'kind': self.kind}
+        return {'ifc': self.ifc, 'packages': self.packages, 'imports': self.imports, 'history': self.history,
+                'kind': self.kind, 'sequence': self.sequence}
 
     @classmethod
     def from_json(cls, d):
-        return cls(d['base_paths'], d['mid_paths'], d['packages'], d['imports'], [tuple(q) for q in d['queries']], d['kind'])
+        packages = {p: {'all': pd['all'], 'mods': {s: [convert_class(c) for c in cs] for s, cs in pd['mods'].items()}}
+                    for p, pd in d['packages'].items()}
+        if 'history' in d:
+            sc = cls(d['ifc'], packages, d['imports'], [list(op) for op in d['history']], d['kind'])
+        else:  # recorded before round 4: all imports, then the queries
+            ifc = {'base': 'method', 'mid': 'plain', 'base_paths': d['base_paths'], 'mid_paths': d['mid_paths']}
+            hist = [['import', i] for i in range(len(d['imports']))] + [['get', q[0], q[1]] for q in d['queries']]
+            sc = cls(ifc, packages, d['imports'], hist, d['kind'])
+        sc.sequence = d.get('sequence', 'hits-first')
+        return sc
+
+    def with_history(self, history, sequence=None):
+        v = Scenario(self.ifc, self.packages, self.imports, history, self.kind)
+        v.sequence = sequence or self.sequence
+        v._facts = self._facts
+        v._classes = getattr(self, '_classes', None)
+        return v
 
     # ---- facts derived from the generated definitions (the scenario's own ground truth) ----
+    def facts(self) -> 'Facts':
+        if self._facts is None:
+            self._build()
+        return self._facts
+
     def classes(self):
         """[(module, clsdict, abstract, ancestors [(module, name)…])] incl. the interface classes."""
-        out = [(IFC, {'name': 'Base', 'base': None, 'alias': None, 'impl': False, 'paths': self.base_paths}, True, []),
-               (IFC, {'name': 'Mid', 'base': 'Base', 'alias': None, 'impl': False, 'paths': self.mid_paths}, True,
-                [(IFC, 'Base')])]
-        known = {'Base': out[0], 'Mid': out[1]}
-        self.flags = {(IFC, 'Base'): (True, False), (IFC, 'Mid'): (True, False)}  # (inspect.isabstract, abstract inner)
+        self.facts()
+        return self._classes
+
+    def _build(self):
+        f = Facts()
+        service = f.add(None, True, {}, [])  # forml.provider.Service (metaclass Meta < ABCMeta), no abstract method
+        abcb = f.add(None, True, {}, [])  # abc.ABC
+        part0 = f.add((IFC, '_Part'), False, {'work': ('f', True)}, [abcb])
+        extra0 = f.add((IFC, 'Extra_'), False, {'extra': ('f', True)}, [abcb])
+        self._part0, self._extra0 = part0, extra0
+        out = []
+        env: dict = {}  # class name visible in a module -> (module, clsdict, table index, ancestors)
+
+        def define(mod, c, scope):
+            base = scope.get(c['base']) if c.get('base') else None
+            bidx = base[2] if base else service
+            ns: dict = {}
+            if c.get('run'):
+                ns['run'] = ('f', c['run'] == 'abstract')
+            extra = c.get('extra')
+            if extra == 'method':
+                ns['extra'] = ('f', True)
+            elif extra == 'impl':
+                ns['extra'] = ('f', False)
+            elif extra == 'prop':
+                ns['level'] = ('f', True)
+            part = c.get('part')
+            if part:
+                inherited = f.resolve(bidx, 'Part')
+                parent = inherited[1] if inherited and inherited[0] == 'c' else part0
+                qual = (mod, f"{c['name']}.Part")
+                if part == 'new':
+                    pk = f.add(qual, False, {'work': ('f', True)}, [abcb])
+                elif part == 'assigned':
+                    pk = part0
+                elif part == 'concrete':
+                    pk = f.add(qual, False, {'work': ('f', False)}, [parent])
+                elif part == 'still':
+                    pk = f.add(qual, False, {}, [parent])
+                elif part == 'plain':
+                    pk = f.add(qual, False, {'work': ('f', True)}, [])
+                else:
+                    raise ValueError(part)
+                ns['Part'] = ('c', pk)
+            bases = ([extra0] if extra == 'mixin' else []) + [bidx]
+            k = f.add((mod, c['name']), False, ns, bases)
+            anc = ([(base[0], base[1]['name'])] + base[3]) if base else []
+            entry = (mod, c, k, anc)
+            scope[c['name']] = entry
+            out.append((mod, c, f.abstract(k), anc))
+            return entry
+
+        kind, mid = self.ifc.get('base', 'method'), self.ifc.get('mid', 'plain')
+        basec = {'name': 'Base', 'base': None, 'alias': None, 'run': 'abstract' if kind in ('method', 'both') else 'impl',
+                 'part': 'assigned' if kind in ('inner', 'both') else None, 'extra': None, 'paths': self.base_paths}
+        midc = {'name': 'Mid', 'base': 'Base', 'alias': None, 'run': None, 'extra': 'method' if mid == 'extra' else None,
+                'part': 'still' if mid == 'still' else None, 'paths': self.mid_paths}
+        define(IFC, basec, env)
+        define(IFC, midc, env)
         for pkg, pd in self.packages.items():
             for sub, clss in pd['mods'].items():
                 mod = f'{pkg}.{sub}' if sub else pkg
-                local = dict(known)
+                scope = dict(env)
                 for c in clss:
-                    pmod, pc, pabs, panc = local[c['base']]
-                    # inspect.isabstract: `run` inherited unimplemented, an abstract property of its own, or an abstract
-                    # method of a mixin; extended: an abstract inner class among the class' own attributes
-                    unimpl = (pabs and not c['impl']) or c.get('shape') in ('prop', 'mixin')
-                    inner = c.get('shape') == 'inner'
-                    self.flags[(mod, c['name'])] = (bool(unimpl), inner)
-                    abstract = bool(unimpl or inner)
-                    entry = (mod, c, abstract, [(pmod, pc['name'])] + panc)
-                    out.append(entry)
-                    local[c['name']] = entry
-        return out
+                    define(mod, c, scope)
+        self._facts = f
+        self._classes = out
 
-    def write(self, root: str):
-        os.makedirs(root, exist_ok=True)
-
-        def kw(c):
+    def render_class(self, c: dict, scope_has_part) -> str:
+        def kw():
             s = ''
             if c.get('alias'):
                 s += f", alias={c['alias']!r}"
@@ -431,38 +645,71 @@ class Scenario:
                 s += f", path={list(c['paths'])!r}"
             return s
 
-        with open(os.path.join(root, f'{IFC}.py'), 'w') as f:
-            f.write('import abc\nfrom forml import provider\n\n'
-                    f"class Base(provider.Service{kw({'paths': self.base_paths})}):\n"
-                    '    @abc.abstractmethod\n    def run(self):\n        """work"""\n\n'
-                    f"class Mid(Base{kw({'paths': self.mid_paths})}):\n    pass\n")
+        base = c['base'] or 'provider.Service'
+        bases = f'Extra_, {base}' if c.get('extra') == 'mixin' else base
+        src = f"class {c['name']}({bases}{kw()}):\n"
+        body = ''
+        if c.get('run') == 'impl':
+            body += '    def run(self):\n        return None\n'
+        elif c.get('run') == 'abstract':
+            body += '    @abc.abstractmethod\n    def run(self):\n        """work"""\n'
+        if c.get('extra') == 'method':
+            body += '    @abc.abstractmethod\n    def extra(self):\n        """more"""\n'
+        elif c.get('extra') == 'impl':
+            body += '    def extra(self):\n        return None\n'
+        elif c.get('extra') == 'prop':
+            body += '    @property\n    @abc.abstractmethod\n    def level(self):\n        """level"""\n'
+        part = c.get('part')
+        parent = f'{base}.Part' if scope_has_part else '_Part'
+        if part == 'new':
+            body += '    class Part(abc.ABC):\n        @abc.abstractmethod\n        def work(self):\n            """component"""\n'
+        elif part == 'assigned':
+            body += '    Part = _Part\n'
+        elif part == 'concrete':
+            body += f'    class Part({parent}):\n        def work(self):\n            return 1\n'
+        elif part == 'still':
+            body += f'    class Part({parent}):\n        pass\n'
+        elif part == 'plain':
+            body += '    class Part:\n        @abc.abstractmethod\n        def work(self):\n            """not an ABC"""\n'
+        return src + (body or '    pass\n') + '\n'
+
+    def write(self, root: str):
+        os.makedirs(root, exist_ok=True)
+        f = self.facts()
+        bykey = {(m, c['name']): c for m, c, _, _ in self._classes}
+
+        def has_part(mod, c):
+            """does the class named as base already have an attribute `Part` (own or inherited)?"""
+            if not c.get('base'):
+                return False
+            # the base is an interface class or an earlier class of the same module
+            for key in ((mod, c['base']), (IFC, c['base'])):
+                if key in f.index and key in bykey:
+                    r = f.resolve(f.index[key], 'Part')
+                    return bool(r and r[0] == 'c')
+            return False
+
+        head = ('import abc\nfrom forml import provider\n\n'
+                'class _Part(abc.ABC):\n    @abc.abstractmethod\n    def work(self):\n        """component"""\n\n'
+                'class Extra_(abc.ABC):\n    @abc.abstractmethod\n    def extra(self):\n        """more"""\n\n')
+        with open(os.path.join(root, f'{IFC}.py'), 'w') as fh:
+            fh.write(head + ''.join(self.render_class(c, has_part(IFC, c)) for m, c, _, _ in self._classes if m == IFC))
         for pkg, pd in self.packages.items():
             os.makedirs(os.path.join(root, pkg), exist_ok=True)
-            def render(clss):
-                src = f'import abc\nfrom {IFC} import Base, Mid\n\n'
-                src += ('class Extra_(abc.ABC):\n    @abc.abstractmethod\n    def extra(self):\n        """more"""\n\n')
-                for c in clss:
-                    shape = c.get('shape')
-                    bases = f"Extra_, {c['base']}" if shape == 'mixin' else c['base']
-                    src += f"class {c['name']}({bases}{kw(c)}):\n"
-                    body = '    def run(self):\n        return None\n' if c['impl'] else ''
-                    if shape == 'inner':
-                        body += ('    class Part(abc.ABC):\n        @abc.abstractmethod\n        def work(self):\n'
-                                 '            """component"""\n')
-                    if shape == 'prop':
-                        body += '    @property\n    @abc.abstractmethod\n    def level(self):\n        """level"""\n'
-                    src += (body or '    pass\n') + '\n'
-                return src
 
-            init = render(pd['mods'].get('', []))
+            def render(mod, clss):
+                return (f'import abc\nfrom {IFC} import Base, Mid, _Part, Extra_\n\n'
+                        + ''.join(self.render_class(c, has_part(mod, c)) for c in clss))
+
+            init = render(pkg, pd['mods'].get('', []))
             if pd['all'] is not None:
                 init += f"__all__ = {list(pd['all'])!r}\n"
-            with open(os.path.join(root, pkg, '__init__.py'), 'w') as f:
-                f.write(init)
+            with open(os.path.join(root, pkg, '__init__.py'), 'w') as fh:
+                fh.write(init)
             for sub, clss in pd['mods'].items():
                 if sub:
-                    with open(os.path.join(root, pkg, f'{sub}.py'), 'w') as f:
-                        f.write(render(clss))
+                    with open(os.path.join(root, pkg, f'{sub}.py'), 'w') as fh:
+                        fh.write(render(f'{pkg}.{sub}', clss))
 
 
 class Names:
@@ -487,17 +734,17 @@ class Names:
 
 
 def scenario_world(sc: Scenario, names: Names):
-    """S-expression of the model's World for a scenario."""
+    """S-expression of the model's WorldT for a scenario (the class flags are computed by the model from the table)."""
+    f = sc.facts()
     mods: dict = {IFC: {'subs': [], 'classes': []}}
     for pkg, pd in sc.packages.items():
         mods[pkg] = {'subs': list(pd['all'] or []), 'classes': []}
         for sub in pd['mods']:
             if sub:
                 mods[f'{pkg}.{sub}'] = {'subs': [], 'classes': []}
-    for mod, c, abstract, anc in sc.classes():
-        unimpl, inner = sc.flags[(mod, c['name'])]
+    for mod, c, _, anc in sc.classes():
         mods[mod]['classes'].append([names.mod(mod), names.n(c['name']), names.n(c['alias']) if c.get('alias') else None,
-                                     unimpl, inner, [[names.mod(m), names.n(q)] for m, q in anc],
+                                     f.index[(mod, c['name'])], [[names.mod(m), names.n(q)] for m, q in anc],
                                      [names.mod(p) for p in c.get('paths') or []]])
     return [[names.mod(m), [names.n(s) for s in d['subs']], d['classes']] for m, d in mods.items()]
 
@@ -510,6 +757,7 @@ def ref_sexp(ref: str, names: Names):
 
 
 LAZY_SIG = 'lazy-collision-late-or-order-dependent'
+NESTED_SIG = 'lookup-not-idempotent-path-registered-during-lookup'
 ERRMAP = {'collision': 'UnexpectedError', 'abstract-alias': 'UnexpectedError', 'preload': 'MissingError',
           'missing': 'MissingError'}
 
@@ -521,69 +769,111 @@ class ScenGen:
     def __init__(self, rng):
         self.rng = rng
 
-    def module_classes(self, aliases_free, want_alias=None):
-        """1..3 classes for one module; a class is concrete iff it implements `run` or derives from a concrete one."""
+    def shape(self, concrete_wanted: bool, base_abstract_run: bool):
+        """members of one class: how it deals with `run`, with an extra abstract method / property / mixin and with the
+        inner class `Part`"""
+        r = self.rng
+        c = {'run': None, 'extra': None, 'part': None}
+        if concrete_wanted:
+            c['run'] = 'impl' if (base_abstract_run or r.random() < 0.5) else None
+            c['part'] = r.choice([None, None, 'concrete', 'plain'])
+            c['extra'] = r.choice([None, None, None, 'impl'])
+            return c
+        c['run'] = r.choice(['impl', 'impl', 'impl', None, 'abstract'])
+        c['part'] = r.choice([None, None, None, 'new', 'assigned', 'concrete', 'still', 'plain'])
+        c['extra'] = r.choice([None, None, None, None, 'method', 'prop', 'mixin', 'impl'])
+        return c
+
+    def module_classes(self, sc_probe, mod, aliases_free, want_alias=None):
+        """1..3 classes for one module deriving from Base / Mid / an earlier class of the module. `sc_probe(clss)` tells
+        which of them are abstract (the scenario's own rule); only concrete classes get an alias."""
         r = self.rng
         out = []
         names = ['Impl', 'Helper', 'Extra']
-        local_abstract, local_concrete = [], []
         for i in range(r.choice([1, 1, 2, 3])):
-            base = r.choice(['Base', 'Mid'] + local_abstract + local_concrete)
-            impl = r.random() < 0.7 or (i == 0 and want_alias is not None)
-            if not (i == 0 and want_alias) and r.random() < 0.25:
-                # abstract although every method is there: an abstract inner class (only the module's own isabstract
-                # sees it), an abstract property, or an abstract method of a mixin. Leaves only (never used as a base).
-                out.append({'name': names[i], 'base': base, 'alias': None, 'impl': True,
-                            'shape': r.choice(['inner', 'inner', 'prop', 'mixin'])})
-                continue
-            concrete = impl or base in local_concrete
-            alias = None
-            if concrete:
-                if i == 0 and want_alias:
-                    alias = want_alias
+            base = r.choice(['Base', 'Mid'] + [c['name'] for c in out])
+            want = i == 0 and want_alias is not None
+            c = {'name': names[i], 'base': base, 'alias': None}
+            for attempt in range(8):
+                c.update(self.shape(want or r.random() < 0.55, True))
+                if not want or not sc_probe(mod, out + [c])[-1]:
+                    break
+            abstract = sc_probe(mod, out + [c])[-1]
+            if not abstract:
+                if want:
+                    c['alias'] = want_alias
                 elif aliases_free and r.random() < 0.6:
-                    alias = aliases_free.pop()
-            out.append({'name': names[i], 'base': base, 'alias': alias, 'impl': impl})
-            (local_concrete if concrete else local_abstract).append(names[i])
+                    c['alias'] = aliases_free.pop()
+            out.append(c)
         return out
 
-    @staticmethod
-    def abstract_aliased(r):
-        shape = r.choice([None, 'inner', 'prop', 'mixin'])
-        c = {'name': 'Abs', 'base': r.choice(['Base', 'Mid']), 'alias': 'abs', 'impl': shape is not None}
-        if shape:
-            c['shape'] = shape
+    WAYS = {'inherited': {'run': None, 'extra': None, 'part': None},
+            'own-method': {'run': 'impl', 'extra': 'method', 'part': None},
+            'prop': {'run': 'impl', 'extra': 'prop', 'part': None},
+            'mixin': {'run': 'impl', 'extra': 'mixin', 'part': None},
+            'reabstracted': {'run': 'abstract', 'extra': 'impl', 'part': None},
+            # abstract in forml's extended sense only: every method implemented, an abstract class among the own attributes
+            'inner-new': {'run': 'impl', 'extra': 'impl', 'part': 'new'},
+            'inner-assigned': {'run': 'impl', 'extra': 'impl', 'part': 'assigned'},
+            'inner-still': {'run': 'impl', 'extra': 'impl', 'part': 'still'}}
+
+    def abstract_aliased(self, sc_probe, mod, existing, inner_only: bool, name='Abs'):
+        """an aliased class that is abstract in a chosen way (the alias must be refused)"""
+        r = self.rng
+        ways = [w for w in self.WAYS if w.startswith('inner') == inner_only]
+        r.shuffle(ways)
+        for way in ways + ['own-method']:
+            c = {'name': name, 'base': r.choice(['Base', 'Mid']), 'alias': name.lower()}
+            c.update(self.WAYS[way])
+            if sc_probe(mod, existing + [c])[-1]:
+                return c
         return c
 
     def make(self, kind: str) -> Scenario:
-        """kind: clean-explicit | collision-explicit | abstract-alias | clean-lazy | collision-lazy | preload"""
+        """kind: clean-explicit | collision-explicit | abstract-alias | clean-lazy | collision-lazy | preload | nested-lazy"""
         r = self.rng
         npk = r.choice([1, 2, 2, 3]) if kind != 'collision-lazy' else 2
         pkgs = [f'pk{i}' for i in range(npk)]
         free = list(self.ALIASES)
         r.shuffle(free)
-        packages = {}
+        ifc = {'base': r.choice(['method', 'method', 'inner', 'both']), 'mid': r.choice(['plain', 'plain', 'extra', 'still']),
+               'base_paths': [], 'mid_paths': []}
+        packages: dict = {}
+
+        def probe(mod, clss):
+            """abstractness (scenario rule) of the classes `clss` placed in module `mod` of the world built so far"""
+            pkg, _, sub = mod.partition('.')
+            trial = {p: {'all': pd['all'], 'mods': dict(pd['mods'])} for p, pd in packages.items()}
+            mods = dict(trial.setdefault(pkg, {'all': None, 'mods': {}})['mods'])
+            mods[sub] = clss
+            trial[pkg]['mods'] = mods
+            t = Scenario(ifc, trial, [], [], kind)
+            return [a for m, c, a, _ in t.classes() if m == mod]
+
         modules = []
         for pkg in pkgs:
             subs = r.sample(self.SUBS, r.choice([1, 2, 2, 3]) if kind.endswith('lazy') else r.choice([1, 1, 2]))
-            mods = {}
+            packages[pkg] = {'all': None, 'mods': {}}
+            if r.random() < 0.25:
+                # classes in the package's own __init__ (registered whenever anything below the package is imported)
+                packages[pkg]['mods'][''] = self.module_classes(probe, pkg, free)[:2]
             for sub in subs:
                 # in lazy scenarios a class is discoverable by alias only if the module is named after it
                 want = sub if (kind.endswith('lazy') and sub in free and r.random() < 0.8) else None
                 if want:
                     free.remove(want)
-                mods[sub] = self.module_classes(free, want_alias=want)
+                packages[pkg]['mods'][sub] = self.module_classes(probe, f'{pkg}.{sub}', free, want_alias=want)
                 modules.append(f'{pkg}.{sub}')
-            allv = r.choice([None, list(subs), list(subs), subs[:1] + ['ghost']])
-            packages[pkg] = {'all': allv, 'mods': mods}
+            packages[pkg]['all'] = r.choice([None, list(subs), list(subs), subs[:1] + ['ghost']])
         if len(modules) > 4:  # at most 4 explicitly imported modules (4! orders)
             modules = r.sample(modules, 4)
         if kind in ('collision-explicit', 'collision-lazy'):
             # the same alias bound to two different classes in two modules
             alias = 'dup'
+            dupc = {'name': 'Dup', 'base': 'Base', 'alias': alias, 'run': 'impl', 'extra': None, 'part': None}
             if kind == 'collision-lazy':
                 for pkg in pkgs[:2]:
-                    packages[pkg]['mods'][alias] = self.module_classes([], want_alias=alias)[:1]
+                    packages[pkg]['mods'][alias] = [dict(dupc, name='Impl', base=r.choice(['Base', 'Mid']))]
                     if packages[pkg]['all'] is not None and r.random() < 0.5:
                         packages[pkg]['all'] = packages[pkg]['all'] + [alias]
             else:
@@ -596,20 +886,36 @@ class ScenGen:
                 for m in chosen:
                     pkg, sub = m.split('.')
                     first = packages[pkg]['mods'][sub]
-                    first.insert(r.randint(0, len(first)), {'name': 'Dup', 'base': r.choice(['Base', 'Mid']),
-                                                            'alias': alias, 'impl': True})
+                    first.insert(r.randint(0, len(first)), dict(dupc, base=r.choice(['Base', 'Mid'])))
         if kind == 'abstract-alias':
-            m = r.choice(modules)
-            pkg, sub = m.split('.')
-            packages[pkg]['mods'][sub].insert(r.randint(0, len(packages[pkg]['mods'][sub])),
-                                              self.abstract_aliased(r))
+            # two aliased abstract classes (in different modules when there are two): one that is abstract in the
+            # extended sense only (an abstract class among its own attributes), one abstract through its methods
+            picks = r.sample(modules, 2) if len(modules) >= 2 else [modules[0], modules[0]]
+            for m, inner_only, name in ((picks[0], True, 'AbsI'), (picks[1], False, 'Abs')):
+                pkg, sub = m.split('.')
+                lst = packages[pkg]['mods'][sub]
+                pos = r.randint(0, len(lst))
+                lst.insert(pos, self.abstract_aliased(probe, m, lst[:pos], inner_only, name))
+        nested = None
+        if kind == 'nested-lazy':
+            # a package that is on no interface's search path: a class discovered in a searched package declares it
+            # (`path=`) — the search path is registered while a lookup is running
+            host = r.choice(pkgs)
+            gate = {'name': 'Gate', 'base': r.choice(['Base', 'Mid']), 'alias': None, 'run': r.choice([None, 'impl']),
+                    'extra': None, 'part': None, 'paths': ['pkn']}
+            packages[host]['mods'] = dict({'': packages[host]['mods'].get('', []) + [gate]},
+                                          **{k: v for k, v in packages[host]['mods'].items() if k})
+            nested = r.choice(['nest', 'deep'])
+            packages['pkn'] = {'all': None, 'mods': {nested: [{'name': 'Impl', 'base': 'Base', 'alias': nested, 'run': 'impl',
+                                                                'extra': 'impl', 'part': None}]}}
         lazy = kind.endswith('lazy') or kind == 'preload'
         base_paths = list(pkgs) if (lazy or r.random() < 0.5) else []
         if kind == 'preload':
             base_paths.append('nopkg')
         r.shuffle(base_paths)
-        mid_paths = [pkgs[-1]] if r.random() < 0.2 else []
-        sc = Scenario(base_paths, mid_paths, packages, [] if lazy else modules, [], kind)
+        ifc['base_paths'] = base_paths
+        ifc['mid_paths'] = [pkgs[-1]] if r.random() < 0.2 else []
+        sc = Scenario(ifc, packages, [] if lazy else modules, [], kind)
         if kind == 'clean-lazy' and r.random() < 0.5:
             # partially pre-imported (1..3 modules, every order): explicit imports interleaved with lazy discovery
             sc.imports = r.sample(modules, min(len(modules), r.choice([1, 2, 3])))
@@ -626,7 +932,8 @@ class ScenGen:
                 qs.append((r.choice(['Base', 'Base', 'Mid']), f"{mod}:{c['name']}"))
         qs = dedupe(qs)
         r.shuffle(qs)
-        # every abstract class is looked up by its qualified name (kept when the list is cut below)
+        # every abstract class is looked up by its qualified name (kept when the list is cut below), the interface
+        # classes included
         absq = {f"{mod}:{c['name']}" for mod, c, abstract, _ in sc.classes() if abstract and mod != IFC}
         qs = [q for q in qs if q[1] in absq][:4] + [q for q in qs if q[1] not in absq]
         if kind == 'preload':
@@ -634,33 +941,47 @@ class ScenGen:
         if kind == 'collision-lazy':
             # the colliding alias first (before anything else triggers imports), then the rest
             qs = [('Base', 'dup')] + [q for q in qs if q != ('Base', 'dup')]
-        sc.queries = qs[:9] + [('Base', 'nosuch'), ('Base', 'pk0.foo:Nosuch'), ('Mid', 'nomod:Impl')]
+        if nested:
+            # asked twice in a row, before anything else has imported the declaring package
+            qs = [('Base', nested), ('Base', nested)] + [q for q in qs if q != ('Base', nested)]
+        qs = qs[:9] + [('Base', f'{IFC}:Base'), (r.choice(['Base', 'Mid']), f'{IFC}:Mid')]
+        qs += [('Base', 'nosuch'), ('Base', 'pk0.foo:Nosuch'), ('Mid', 'nomod:Impl')]
         if kind != 'preload':
-            sc.queries += self.near_misses(sc)
+            qs += self.near_misses(sc)
+        sc.history = [['import', i] for i in range(len(sc.imports))] + [['get', i, q] for i, q in qs]
         return sc
 
     def variants(self, sc: Scenario):
-        """The same world and imports with other lookup sequences: misses before hits, and a shuffle with repeated
-        lookups (the generated order has the hits first)."""
+        """The same world with other histories: misses before hits, a shuffle with repeated lookups, and the explicit
+        imports interleaved with the lookups (lookups of other references / misses / repeats before an import, in
+        between, after)."""
         r = self.rng
         carried = set()
         for mod, c, _, _ in sc.classes():
             carried.add(f"{mod}:{c['name']}")
             if c.get('alias'):
                 carried.add(c['alias'])
-        qs = list(sc.queries)
-        hits = [q for q in qs if q[1] in carried]
-        misses = [q for q in qs if q[1] not in carried]
+        imps = [op for op in sc.history if op[0] == 'import']
+        gets = [op for op in sc.history if op[0] == 'get']
+        hits = [g for g in gets if g[2] in carried]
+        misses = [g for g in gets if g[2] not in carried]
         r.shuffle(misses)
         r.shuffle(hits)
-        mixed = list(qs)
+        mixed = list(gets)
         r.shuffle(mixed)
-        again = r.sample(qs, min(5, len(qs)))
+        again = r.sample(gets, min(5, len(gets)))
+        inter = list(mixed) + r.sample(gets, min(4, len(gets)))
+        # the relative order of the import slots is kept (the slots are permuted by the orders)
+        pos = sorted(r.randint(0, len(inter)) for _ in imps)
+        for off, (p, imp) in enumerate(zip(pos, imps)):
+            inter.insert(p + off, imp)
+        twice = []
+        for g in misses + hits:  # every third lookup asked twice in a row
+            twice += [g, g] if r.random() < 0.35 else [g]
         out = [sc]
-        for queries, tag in ((misses + hits, 'miss-first'), (mixed + again, 'shuffled-repeated')):
-            v = Scenario(sc.base_paths, sc.mid_paths, sc.packages, sc.imports, queries, sc.kind)
-            v.sequence = tag
-            out.append(v)
+        for hist, tag in ((imps + twice, 'miss-first'), (imps + mixed + again, 'shuffled-repeated'),
+                          (inter, 'interleaved')):
+            out.append(sc.with_history(hist, tag))
         return out
 
     def near_misses(self, sc: Scenario):
@@ -674,7 +995,7 @@ class ScenGen:
         cand = []
         for mod, c in classes:
             cand += [c['name'], c['name'].lower(), f"{mod}:{c['name'].lower()}", f"{mod.split('.')[0]}:{c['name']}",
-                     f"{mod}:{c['name']}x"]
+                     f"{mod}:{c['name']}x", f"{mod}:{c['name']}.Part"]
             if '.' in mod:
                 cand.append(mod.split('.')[1])  # alias spelled like an importable module
             if c.get('alias'):
@@ -721,28 +1042,39 @@ class C20(fw.Check):
             'with and without repeated elements, tables; a key keeps its kind across sources with probability 0.7..1.0, '
             'otherwise it flips) fed to the real Config through update, update(other, **kw), TOML files + read (incl. a '
             'missing file) and defaults + read; distinct by (sources, via), non-trivial when >= 2 sources share a key. '
-            'Sections: [RUNNER]/[REGISTRY] groups with default / provider / params resolved through setup.Runner/Registry. '
-            'Providers: generated packages (1..3 packages, 1..3 modules each, 1..3 classes per module deriving from the '
-            'abstract interface, an abstract intermediate or an earlier class; leaf classes abstract through an abstract inner '
-            'class / abstract property / mixin; aliases, qualified names, __all__ lists '
-            'with ghosts) of kinds clean-explicit, collision-explicit, abstract-alias, clean-lazy (half with 1..3 modules '
-            'pre-imported explicitly), collision-lazy, preload; every permutation (quick: <= 6 sampled) of the explicit '
-            'imports x PYTHONHASHSEEDs, each in a freshly forked process of an interpreter that has only forml imported; '
-            'every alias / qualified name, three fixed unknown references and up to three near-miss unknown references '
-            '(class name as alias, alias in another case / truncated / extended, module name without that alias, right '
-            'module wrong class, package for module) resolved through Base[...] and Mid[...] in three sequences per world '
-            '(hits first, misses first, shuffled with repeats). A provider case '
-            'is distinct by (scenario, import order, seed).')
+            'Sections: [RUNNER]/[REGISTRY] groups with default / provider / params resolved through setup.Runner/Registry; '
+            '[FEED] groups (default = one reference or a list, sections with priority, priority inside params) through '
+            'setup.Feed.resolve(None | reference | list of references in several orders | a missing one) and [SINK] groups '
+            '(default / apply / eval) through setup.Sink.Mode.resolve. '
+            'Providers: generated packages (1..3 packages, 1..3 modules each plus classes in package __init__ files, 1..3 '
+            'classes per module deriving from the interface, an intermediate or an earlier class; every class chooses whether '
+            'it implements / declares abstract / inherits `run`, an extra abstract method, property or mixin and an inner class '
+            '(new abstract, assigned abstract, concrete override, still-abstract override, plain non-ABC); the interface is '
+            'abstract through a method, through an inner class only, or both; aliases, qualified names, __all__ lists with '
+            'ghosts) of kinds clean-explicit, collision-explicit, abstract-alias (one class abstract in the extended sense '
+            'only, one through its methods), clean-lazy (half with 1..3 modules pre-imported explicitly), collision-lazy, '
+            'preload, nested-lazy (a discovered class declares a further search path). Four histories per world (hits first; '
+            'misses first with lookups asked twice in a row; shuffled with repeats; explicit imports interleaved with the '
+            'lookups) x every permutation (quick: <= 6 sampled) of the explicit imports x PYTHONHASHSEEDs, each in a freshly '
+            'forked process of an interpreter that has only forml imported; under the first two hash seeds and import orders '
+            'every lookup additionally on its own in a fresh process (single-shot answer). Lookups: every alias / qualified '
+            'name incl. those of abstract classes and of the interface classes, three fixed unknown references and up to three '
+            'near-miss unknown references through Base[...] and Mid[...]. A provider case is distinct by (scenario, history, '
+            'import order, seed); a class case by (class statement, statements of its MRO).')
     TRUSTED = [
         'tomli (TOML reader), the minimal TOML writer of the harness, MappingProxyType wrappers',
-        'CPython import machinery (__import__/fromlist/__all__, sys.modules), sorted() on Bank.Path tuples, and set '
-        'iteration order: the model takes the observed iteration order of Bank.paths as an explicit parameter (and '
+        'CPython import machinery (__import__/fromlist/__all__, sys.modules), C3 linearisation (the MRO of a class statement '
+        'is an input of the model; compared with the real __mro__ of every generated class), sorted() on Bank.Path tuples, '
+        'and set iteration order: the model takes the observed iteration order of Bank.paths as an explicit parameter (and '
         'C20_lookup_order_free proves that it does not matter once Bank.get sorts)',
         'os.fork children of one interpreter per hash seed stand for fresh processes (forml imported, nothing else)',
     ]
     ASSUMPTIONS = ['list elements are scalars (TOML arrays of tables are not generated)',
-                   'single inheritance below the provider interface; module names have at most two components',
-                   'scalars of different Python types that compare equal (1 == True == 1.0) are not mixed in one case']
+                   'one optional mixin beside single inheritance below the provider interface; module names have at most two '
+                   'components; module bodies are class statements (import edges between provider modules are not modelled)',
+                   'scalars of different Python types that compare equal (1 == True == 1.0) are not mixed in one case',
+                   'section references are non-empty strings, feed priorities plain numbers; ill-formed configurations (a '
+                   'section that is no table, a non-numeric priority, a non-string provider) are not judged']
 
     SEEDS_QUICK = [0, 1, 2, 3]
     SEEDS_THOROUGH = [0, 1, 2, 3, 4, 5, 6, 7]
@@ -758,6 +1090,10 @@ class C20(fw.Check):
             ([{'a': {'b': 3}}, {'a': 5}, {'a': {'c': 2}}], False),  # C20_assoc_counterexample
             ([{'RUNNER': {'default': 'r0', 'r0': {'provider': 'dask', 'a': 2}}},
               {'RUNNER': {'r0': {'params': {'a': 3, 'b': 4}}, 'r1': {'c': 5}}}], True),
+            ([{'FEED': {'default': ['r2', 'r0'], 'r0': {'priority': 5, 'provider': 'posix'}, 'r2': {'provider': 'dask', 'priority': 5}}},
+              {'FEED': {'default': ['r1'], 'r1': {'params': {'priority': 9, 'a': 2}}, 'r0': {'b': 3}}}], True),
+            ([{'SINK': {'default': 'r0', 'r0': {'a': 2}, 'r1': {'provider': 'dask'}}}, {'SINK': {'eval': 'r1'}},
+              {'SINK': {'apply': 'r3'}}], True),
         ]
         cases = [(s, g, v) for s, g in corpus for v in ('update', 'read')]
         for _ in range(n):
@@ -816,6 +1152,127 @@ class C20(fw.Check):
                     out.append(((gname, ref), impl, spec, eref))
         return out
 
+    # ---- multi-instance and mode sections: setup.Feed (Multi, priority) and setup.Sink.Mode ----
+    FEED_QUERIES = [None, 'r0', 'r1', 'r4', ['r0', 'r1'], ['r1', 'r0'], ['r2', 'r0', 'r1'], ['r0', 'r4'], []]
+
+    @staticmethod
+    def _wf_section(sec, feed=False):
+        """well-formed options of one provider section: a table whose `provider` is a string, `params` a table and
+        (feeds) `priority` a plain number"""
+        if not is_table(sec):
+            return False
+        if 'provider' in sec and not isinstance(sec['provider'], str):
+            return False
+        if 'params' in sec and not is_table(sec['params']):
+            return False
+        if feed and 'priority' in sec and (isinstance(sec['priority'], bool) or not isinstance(sec['priority'], (int, float))):
+            return False
+        return True
+
+    @classmethod
+    def _spec_single(cls, group, ref):
+        """property text for one provider section of a group: present → (its provider or its own name, options with
+        `params` merged over them); absent → MissingError; anything ill-formed → None (not judged)"""
+        if not isinstance(ref, str) or not ref:
+            return None
+        if ref not in group:
+            return ['MissingError']
+        if not cls._wf_section(group[ref]):
+            return None
+        sec = dict(group[ref])
+        prov = sec.pop('provider', ref)
+        sec.update(sec.pop('params', {}))
+        return ['ok', str(prov), canon(sec)]
+
+    @classmethod
+    def _spec_feeds(cls, spec_cfg, ref):
+        group = spec_cfg.get('FEED')
+        if group is None:
+            group = {}
+        if not is_table(group):
+            return None
+        refs = ref if ref else group.get('default')
+        if not refs:
+            return ['MissingError'] if (refs is None or refs == [] or refs == ()) else None
+        if isinstance(refs, str):
+            refs = [refs]
+        if not is_list(refs) or not all(isinstance(r, str) and r for r in refs):
+            return None
+        out = []
+        for r in refs:
+            if r not in group:
+                return ['MissingError']
+            if not cls._wf_section(group[r], feed=True):
+                return None
+            sec = dict(group[r])
+            prio = float(sec.pop('priority', 0))
+            prov = sec.pop('provider', r)
+            sec.update(sec.pop('params', {}))
+            out.append((prio, str(prov), canon(sec)))
+        # "deterministic": by priority, equal priorities by provider reference, otherwise as listed
+        order = sorted(range(len(out)), key=lambda i: (out[i][0], out[i][1], i))
+        return ['ok', [[out[i][1], out[i][0], out[i][2]] for i in order]]
+
+    @classmethod
+    def _spec_mode(cls, spec_cfg, ref):
+        group = spec_cfg.get('SINK')
+        if ref:
+            if group is None:
+                return ['MissingError']
+            if not is_table(group):
+                return None
+            one = cls._spec_single(group, ref)
+            return one if one is None or one[0] != 'ok' else ['ok', one[1:], one[1:]]
+        if group is None:
+            return ['MissingError']
+        if not is_table(group):
+            return None
+        dflt = group.get('default')
+        apply, evaluate = group.get('apply', dflt), group.get('eval', dflt)
+        for v in (apply, evaluate):
+            if v is not None and (not isinstance(v, str) or not v):
+                return None
+        if apply is None or evaluate is None:
+            return ['MissingError']
+        a = cls._spec_single(group, apply)
+        if a is None or a[0] != 'ok':
+            return a
+        e = cls._spec_single(group, evaluate)
+        if e is None or e[0] != 'ok':
+            return e
+        return ['ok', a[1:], e[1:]]
+
+    def _multi_sections(self, cfg, eff):
+        """setup.Feed.resolve / setup.Sink.Mode.resolve on the real code with CONFIG patched → [(what, query, impl, spec)]"""
+        from unittest import mock
+
+        import forml
+        from forml import setup
+        from forml.setup import _conf
+
+        spec_cfg = spec_layer(list(reversed(eff)) + [{}])
+        out = []
+        with mock.patch.object(_conf, 'CONFIG', cfg):
+            for q in self.FEED_QUERIES:
+                try:
+                    got = setup.Feed.resolve(q)
+                    impl = ['ok', [[f.reference, float(f.priority), canon(dict(f.params))] for f in got]]
+                except forml.MissingError:
+                    impl = ['MissingError']
+                except Exception:  # pylint: disable=broad-except
+                    impl = ['malformed']
+                out.append(('feed', q, impl, self._spec_feeds(spec_cfg, q)))
+            for q in (None, 'r0', 'r1', 'r4'):
+                try:
+                    got = setup.Sink.Mode.resolve(q)
+                    impl = ['ok'] + [[s.reference, canon(dict(s.params))] for s in (got.apply, got.eval)]
+                except forml.MissingError:
+                    impl = ['MissingError']
+                except Exception:  # pylint: disable=broad-except
+                    impl = ['malformed']
+                out.append(('mode', q, impl, self._spec_mode(spec_cfg, q)))
+        return out
+
     def _config(self):
         cases = self._conf_cases(self.n(1000, 30000))
         tmp = tempfile.mkdtemp(prefix='verif-c20-conf-')
@@ -824,13 +1281,15 @@ class C20(fw.Check):
             for idx, (sources, groups, via) in enumerate(cases):
                 impl, spec, dupes, cfg, eff = self._conf_eval(sources, via, tmp)
                 num = Numbering()
+                num.seed(Numbering.collect(eff, []) + GROUP_KEYS + SECTION_REFS
+                         + ['r4', 'provider', 'params', 'priority', 'default', 'apply', 'eval', 0])
                 lines.append(sexp.dumps(['stack', [num.enc(s) for s in eff]]))
                 shared = len(eff) > 1 and any(set(a) & set(b) for a, b in itertools.combinations(eff, 2))
                 depth_flip = 'flip' if self._has_flip(eff) else 'consistent'
                 self.case(('conf', json.dumps(canon(eff), sort_keys=True, default=str), via),
                           f'conf n={len(eff)} via={via} {depth_flip}{" groups" if groups else ""}', nontrivial=shared,
                           sample={'sources': canon(eff), 'via': via, 'result': impl} if idx in (1, 4, 12) else None)
-                sect = None
+                sect = msect = None
                 if isinstance(impl, dict) and len(eff) == 3 and via == 'update':
                     self._assoc(eff, impl, depth_flip == 'flip')
                 if isinstance(impl, dict):
@@ -841,10 +1300,12 @@ class C20(fw.Check):
                                      {'kind': 'conf', 'raw': self._jsonable(eff), 'via': via}, sig, {'path': list(path)})
                     if groups:
                         sect = self._sections(cfg, eff)
-                metas.append((via, impl, num, eff, sect))
+                        msect = self._multi_sections(cfg, eff)
+                metas.append((via, impl, num, eff, sect, msect))
             answers = self.model(lines)
             sec_lines, sec_meta = [], []
-            for (via, impl, num, eff, sect), ans in zip(metas, answers):
+            mul_lines, mul_meta = [], []
+            for (via, impl, num, eff, sect, msect), ans in zip(metas, answers):
                 m = sexp.num(sexp.loads(ans))
                 if isinstance(impl, tuple):
                     self.diverge('Config raised', {'sources': self._jsonable(eff), 'via': via}, list(impl), m)
@@ -864,6 +1325,28 @@ class C20(fw.Check):
                         sec_lines.append(sexp.dumps(['section', m[1], num.key(gname), num.key(eref), num.key('provider'),
                                                      num.key('params')]))
                         sec_meta.append((eff, via, gname, eref, simpl, num))
+                dup = any(has_dup_list(x) for x in eff)
+                for what, q, mimpl, mspec in msect or []:
+                    self.case((what, len(mul_lines), json.dumps(q), json.dumps(mimpl, default=str)),
+                              f'{what} section {mimpl[0]}{" n=" + str(len(mimpl[1])) if what == "feed" and mimpl[0] == "ok" else ""}',
+                              nontrivial=mimpl[0] == 'ok')
+                    if mspec is None:
+                        continue  # ill-formed configuration (a section that is no table, a priority that is no number …)
+                    if (dedupe_canon(mimpl) != dedupe_canon(mspec)) if dup else (mimpl != mspec):
+                        gname = 'FEED' if what == 'feed' else 'SINK'
+                        self.violate(f'{"feeds" if what == "feed" else "sink modes"} [{gname}] {q!r} resolved to {mimpl} but the '
+                                     f'layered configuration says {mspec}',
+                                     {'kind': 'multi', 'raw': self._jsonable(eff), 'via': via, 'what': what, 'query': q},
+                                     f'section-resolution-{what}')
+                        continue
+                    ex = None if not q else ['s', num.scalar(q)] if isinstance(q, str) else ['l'] + [num.scalar(x) for x in q]
+                    if what == 'feed':
+                        mul_lines.append(sexp.dumps(['multi', m[1], num.key('FEED'), num.key('FEED'), num.key('default'),
+                                                     num.key('provider'), num.key('params'), num.key('priority'), num.scalar(0), ex]))
+                    else:
+                        mul_lines.append(sexp.dumps(['mode', m[1], num.key('SINK'), num.key('SINK'), num.key('default'),
+                                                     num.key('apply'), num.key('eval'), num.key('provider'), num.key('params'), ex]))
+                    mul_meta.append((eff, via, what, q, mimpl, num))
             for (eff, via, gname, eref, simpl, num), ans in zip(sec_meta, self.model(sec_lines)):
                 m = sexp.num(sexp.loads(ans))
                 if simpl[0] == 'ok':
@@ -876,6 +1359,21 @@ class C20(fw.Check):
                 if not ok:
                     self.diverge('section resolution', {'sources': self._jsonable(eff), 'via': via, 'group': gname, 'ref': eref},
                                  simpl, ans)
+            for (eff, via, what, q, mimpl, num), ans in zip(mul_meta, self.model(mul_lines)):
+                m = sexp.num(sexp.loads(ans))
+                if mimpl[0] != 'ok':
+                    ok = m == ('missing' if mimpl[0] == 'MissingError' else 'malformed')
+                elif not (isinstance(m, list) and m[0] == 'ok'):
+                    ok = False
+                elif what == 'feed':
+                    ok = len(m[1]) == len(mimpl[1]) and all(
+                        num.decode(e[0]) == f[0] and float(num.decode(e[1])) == f[1]
+                        and e[2] == num.enc_sorted(self._from_canon(f[2])) for e, f in zip(m[1], mimpl[1]))
+                else:
+                    ok = all((num.decode(e[0][1]) == f[0] if e[0] != 'none' else True)
+                             and e[1] == num.enc_sorted(self._from_canon(f[1])) for e, f in zip(m[1:], mimpl[1:]))
+                if not ok:
+                    self.diverge(f'{what} section resolution', {'sources': self._jsonable(eff), 'via': via, 'query': q}, mimpl, ans)
         finally:
             shutil.rmtree(tmp, ignore_errors=True)
 
@@ -946,26 +1444,100 @@ class C20(fw.Check):
     @staticmethod
     def _ops(sc: Scenario, order):
         ops = [['import', IFC]]
-        ops += [['import', m] for m in order]
-        ops += [['get', IFC, iface, ref] for iface, ref in sc.queries]
+        for op in sc.history:
+            if op[0] == 'import':
+                if op[1] < len(order):
+                    ops.append(['import', order[op[1]]])
+            else:
+                ops.append(['get', IFC, op[1], op[2]])
         return ops
 
-    def _run_scenarios(self, scenarios, seeds, root):
-        """→ [(scenario index, order, seed, ops, results)]"""
-        jobs, index = [], []
-        for i, sc in enumerate(scenarios):
-            d = os.path.join(root, f's{i}')
-            sc.write(d)
-            for order in self._orders(sc):
-                jobs.append({'dir': d, 'ops': self._ops(sc, order)})
-                index.append((i, order))
-        res = spawn_workers(jobs, seeds)
+    @staticmethod
+    def _single_key(ops, k):
+        """the lookup at position k asked at once: the explicit imports that precede it, then the lookup alone"""
+        return tuple(op[1] for op in ops[1:k] if op[0] == 'import'), ops[k][2], ops[k][3]
+
+    @staticmethod
+    def _classinfo_ops(sc: Scenario):
+        ops = [['import', IFC]]
+        for pkg, pd in sc.packages.items():
+            ops.append(['import', pkg])
+            ops += [['import', f'{pkg}.{sub}'] for sub in pd['mods'] if sub]
+        f = sc.facts()
+        ops += [['classinfo', lab[0], lab[1]] for lab in f.label if lab is not None]
+        return ops
+
+    def _run_scenarios(self, items, seeds, root, classinfo=False, single_seeds=None, single_orders=2):
+        """items = [(scenario, [order…])]. Every (scenario, order) history is run in a fresh process under every hash
+        seed; under the hash seeds `single_seeds` (default: the first two) every lookup of the first `single_orders`
+        orders is also run on its own in a fresh process after the same explicit imports: the single-shot answers.
+        → [{'runs': [(order, seed, ops, results)], 'singles': {(order, seed, key): (ops, result)}, 'info': {seed: (ops, results)}}]"""
+        single_seeds = list(seeds[:2]) if single_seeds is None else list(single_seeds)
+        jobs, jobkey = ([], []), ({}, {})
+        dirs: dict = {}
+
+        def job(which, d, ops):
+            key = (d, json.dumps(ops))
+            if key not in jobkey[which]:
+                jobkey[which][key] = len(jobs[which])
+                jobs[which].append({'dir': d, 'ops': ops})
+            return jobkey[which][key]
+
+        plan = []
+        for sc, orders in items:
+            wkey = json.dumps([sc.ifc, sc.packages], sort_keys=True)
+            if wkey not in dirs:
+                dirs[wkey] = os.path.join(root, f's{len(dirs)}')
+                sc.write(dirs[wkey])
+            d = dirs[wkey]
+            entry = {'main': [], 'single': [], 'info': None}
+            for n, order in enumerate(orders):
+                ops = self._ops(sc, order)
+                entry['main'].append((order, ops, job(0, d, ops)))
+                if n >= single_orders or not single_seeds:
+                    continue
+                for k, op in enumerate(ops):
+                    if op[0] == 'get':
+                        key = self._single_key(ops, k)
+                        sops = [['import', IFC]] + [['import', m] for m in key[0]] + [op]
+                        entry['single'].append((order, key, sops, job(1, d, sops)))
+            if classinfo:
+                iops = self._classinfo_ops(sc)
+                entry['info'] = (iops, job(0, d, iops))
+            plan.append(entry)
+        res: list = [None, None]
+        errs: list = []
+
+        def run(which, sds):
+            try:
+                res[which] = spawn_workers(jobs[which], sds) if jobs[which] and sds else {s: [] for s in sds}
+            except Exception as e:  # pylint: disable=broad-except
+                errs.append(e)
+
+        threads = [threading.Thread(target=run, args=(0, list(seeds))), threading.Thread(target=run, args=(1, single_seeds))]
+        for t in threads:
+            t.start()
+        for t in threads:
+            t.join()
+        if errs:
+            raise errs[0]
+        for which in (0, 1):
+            for rs in res[which].values():
+                for r in rs:
+                    if isinstance(r, dict):
+                        raise fw.MachineryError(f'provider job crashed: {r}')
         out = []
-        for seed in seeds:
-            for (i, order), job, r in zip(index, jobs, res[seed]):
-                if isinstance(r, dict):
-                    raise fw.MachineryError(f'provider job crashed: {r}')
-                out.append((i, order, seed, job['ops'], r))
+        for entry in plan:
+            o = {'runs': [], 'singles': {}, 'info': {}}
+            for seed in seeds:
+                for order, ops, j in entry['main']:
+                    o['runs'].append((order, seed, ops, res[0][seed][j]))
+                if entry['info']:
+                    o['info'][seed] = (entry['info'][0], res[0][seed][entry['info'][1]])
+            for seed in single_seeds:
+                for order, key, sops, j in entry['single']:
+                    o['singles'][(tuple(order), seed, key)] = (sops, res[1][seed][j])
+            out.append(o)
         return out
 
     @staticmethod
@@ -979,7 +1551,7 @@ class C20(fw.Check):
                 else:
                     mops.append(['get', [names.mod(op[1]), names.n(op[2])], ref_sexp(op[3], names),
                                  [names.mod(v) for v in r[-1]]])
-            return ['bank', world, mops]
+            return ['bankt', sc.facts().stmts, world, mops]
 
         collect = Names()
         build(collect)  # first pass: the universe of strings
@@ -1011,9 +1583,9 @@ class C20(fw.Check):
                 out.append(r)
         return out
 
-    def _oracle(self, sc: Scenario, runs):
+    def _oracle(self, sc: Scenario, runs, singles=None):
         """Property text evaluated on the real outcomes of one scenario across all import orders and hash seeds.
-        runs = [(order, seed, ops, results)]"""
+        runs = [(order, seed, ops, results)]; singles = {(order, seed, key): (ops, result)} = every lookup asked at once"""
         classes = {(mod, c['name']): (c, abstract) for mod, c, abstract, _ in sc.classes()}
         ancestors = {(mod, c['name']): anc for mod, c, _, anc in sc.classes()}
         search = {'Base': set(sc.base_paths) | set(sc.mid_paths), 'Mid': set(sc.mid_paths)}  # path= seen by each bank
@@ -1023,70 +1595,99 @@ class C20(fw.Check):
                 by_alias.setdefault(c['alias'], []).append((mod, name))
         colliding = {a for a, cs in by_alias.items() if len(cs) > 1}
         defective = bool(colliding) or any(abstract and c.get('alias') for c, abstract in classes.values())
+        nested = any(c.get('paths') for (mod, _), (c, _) in classes.items() if mod != IFC)
         witness = {'kind': 'bank', 'scenario': sc.to_json()}
         per_query: dict = {}
         for order, seed, ops, results in runs:
             import_errs = {op[1]: r for op, r in zip(ops, results) if op[0] == 'import' and r[0] == 'err'}
             rejected = bool(import_errs)
+            imported_all = [op[1] for op in ops if op[0] == 'import']
             # colliding references are rejected at registration: once both classes' modules were imported explicitly,
             # one of the imports must have failed
             for alias in colliding:
                 mods = [m for m, _ in by_alias[alias]]
-                if all(m in order for m in mods) and not any(m in import_errs for m in mods):
+                if all(m in imported_all for m in mods) and not any(m in import_errs for m in mods):
                     self.violate(f'alias {alias!r} bound to two classes by the explicitly imported modules {mods} and no '
                                  f'registration was rejected (import order {order})', dict(witness, order=order, seeds=[seed]),
                                  'collision-not-rejected')
             for (mod, name), (c, abstract) in classes.items():
-                if abstract and c.get('alias') and mod in order and mod not in import_errs:
+                if abstract and c.get('alias') and mod in imported_all and mod not in import_errs:
                     self.violate(f'alias on abstract class {mod}:{name} accepted', dict(witness, order=order, seeds=[seed]),
                                  'abstract-alias-accepted')
-            for qi, (op, r) in enumerate((o, x) for o, x in zip(ops, results) if o[0] == 'get'):
+            qi = -1
+            for k, (op, r) in enumerate(zip(ops, results)):
+                if op[0] != 'get':
+                    continue
+                qi += 1
                 iface, ref = op[2], op[3]
+                before = [o[1] for o in ops[1:k] if o[0] == 'import']  # explicit imports executed before this lookup
+                hist = dict(witness, order=order, seeds=[seed], at=k)
                 if r[0] == 'ok':
                     got = (r[1], r[2])
                     if r[3] or got not in classes or classes[got][1]:
-                        self.violate(f'{iface}[{ref!r}] returned the abstract/unknown class {got}',
-                                     dict(witness, order=order, seeds=[seed]), 'abstract-returned')
+                        self.violate(f'{iface}[{ref!r}] returned the abstract/unknown class {got}', hist, 'abstract-returned')
                         continue
                     c = classes[got][0]
                     legit = (ref == f'{got[0]}:{got[1]}') or (c.get('alias') == ref)
                     if not legit:
                         self.violate(f'{iface}[{ref!r}] returned {got[0]}:{got[1]} which does not carry that reference',
-                                     dict(witness, order=order, seeds=[seed]), 'wrong-provider-returned')
+                                     hist, 'wrong-provider-returned')
                         continue
                 known = (ref in by_alias) or (':' in ref and tuple(ref.split(':', 1)) in classes)
+                # the answer does not depend on what was looked up before: a reference that resolves when it is asked at
+                # once (fresh process, the same explicit imports) resolves to the same class at this point of the history
+                if singles is not None and not defective and not rejected and sc.kind != 'preload':
+                    s = singles.get((tuple(order), seed, self._single_key(ops, k)))
+                    sr = s[1][-1] if s is not None else None  # the answer of the lookup asked at once
+                    if sr is not None and sr[0] == 'ok' and (r[0] != 'ok' or (r[1], r[2]) != (sr[1], sr[2])):
+                        shown = [f'{o[2]}[{o[3]!r}]' if o[0] == 'get' else f'import {o[1]}' for o in ops[1:k]]
+                        self.violate(f'{iface}[{ref!r}] {"raised " + r[1] if r[0] != "ok" else "returned " + r[1] + ":" + r[2]} '
+                                     f'after the history {shown} although it resolves to {sr[1]}:{sr[2]} when asked at once '
+                                     f'(same explicit imports)', hist, 'lookup-depends-on-history')
+                        continue
+                # asking twice in a row gives the same answer
+                if k > 0 and ops[k - 1] == op and not defective and not rejected and sc.kind != 'preload':
+                    p = results[k - 1]
+                    if (p[0], p[1], p[2] if p[0] == 'ok' else None) != (r[0], r[1], r[2] if r[0] == 'ok' else None):
+                        late = nested and p[0] == 'err' and p[1] == 'MissingError' and r[0] == 'ok'
+                        self.violate(f'{iface}[{ref!r}] asked twice in a row: first {"raised " + p[1] if p[0] != "ok" else p[1] + ":" + p[2]}, '
+                                     f'then {"raised " + r[1] if r[0] != "ok" else "returned " + r[1] + ":" + r[2]}'
+                                     + (' (the search path was registered by a class that the first lookup discovered)' if late else ''),
+                                     hist, NESTED_SIG if late else 'lookup-not-idempotent')
+                        continue
                 # a reference carried by exactly one concrete class below the interface resolves (to that class, checked
                 # above) once its module was imported, or lazily when it is discoverable: a qualified name names its
                 # module, an alias is looked for in <search path>.<alias>
                 carriers = by_alias.get(ref, []) if ':' not in ref else [tuple(ref.split(':', 1))]
-                carriers = [k for k in carriers if k in classes and not classes[k][1]]
+                carriers = [k2 for k2 in carriers if k2 in classes and not classes[k2][1]]
                 if (len(carriers) == 1 and not defective and not rejected and sc.kind != 'preload' and r[0] != 'ok'
                         and (IFC, iface) in ancestors[carriers[0]]):
                     cmod = carriers[0][0]
                     pkg, _, sub = cmod.partition('.')
                     allv = sc.packages.get(pkg, {}).get('all')
-                    if (cmod in order or ':' in ref or (sub == ref and pkg in search[iface])
-                            or (pkg in search[iface] and allv is not None and sub in allv)):
+                    if (cmod in before or ':' in ref or (sub == ref and pkg in search[iface])
+                            or (pkg in search[iface] and (sub == '' or (allv is not None and sub in allv)))):
                         self.violate(f'{iface}[{ref!r}] raised {r[1]} although {cmod}:{carriers[0][1]} carries the reference '
-                                     f'and is {"imported" if cmod in order else "discoverable"}',
-                                     dict(witness, order=order, seeds=[seed]), 'registered-provider-not-found')
+                                     f'and is {"imported" if cmod in before else "discoverable"}', hist,
+                                     'registered-provider-not-found')
                         continue
                 if not known and r[0] == 'ok':
-                    self.violate(f'unknown reference {iface}[{ref!r}] resolved to {r[1]}:{r[2]}',
-                                 dict(witness, order=order, seeds=[seed]), 'unknown-reference-resolved')
+                    self.violate(f'unknown reference {iface}[{ref!r}] resolved to {r[1]}:{r[2]}', hist,
+                                 'unknown-reference-resolved')
                     continue
                 # a lookup that has to import a module whose class registration is rejected (colliding reference, alias
                 # on an abstract class) raises that rejection: "rejected at registration" takes precedence there
                 excused = defective and r[0] == 'err' and r[1] == 'UnexpectedError'
                 if not known and r[1] != 'MissingError' and not rejected and not excused:
-                    sig = 'unknown-reference-not-missing'
                     self.violate(f'unknown reference {iface}[{ref!r}] raised {r[1]} instead of MissingError',
-                                 dict(witness, query=[iface, ref], seeds=[seed]), sig)
+                                 dict(witness, query=[iface, ref], order=order, seeds=[seed], at=k),
+                                 'unknown-reference-not-missing')
                 outcome = (r[0], r[1], r[2]) if r[0] == 'ok' else (r[0], r[1])
-                per_query.setdefault((qi, iface, ref), []).append((outcome, order, seed, rejected))
-        # the same single class whatever the import order (and whatever the hash seed): compared over the runs in
-        # which no registration was rejected
-        for (qi, iface, ref), outs in per_query.items():
+                per_query.setdefault((qi, iface, ref, frozenset(before)), []).append((outcome, order, seed, rejected))
+        # the same single class whatever the import order (and whatever the hash seed): the same lookup at the same
+        # point of the same history after the same set of explicit imports, compared over the runs in which no
+        # registration was rejected
+        for (qi, iface, ref, _), outs in per_query.items():
             clean = [o for o in outs if not o[3]]
             distinct = sorted({o[0] for o in clean})
             if len(distinct) > 1:
@@ -1098,43 +1699,270 @@ class C20(fw.Check):
                 self.violate(f'{iface}[{ref!r}] resolves differently depending on import order / hash seed: {distinct}',
                              dict(witness, query=[iface, ref], seeds=sorted({o[2] for o in clean})), sig, ex)
 
+    def _classinfo(self, sc: Scenario, info, ans):
+        """every class object of the world (providers, inner classes, mixin): `__abstractmethods__`, inspect.isabstract and
+        forml.provider.isabstract of the real class against the model's class table, and the MRO the table assumes"""
+        f = sc.facts()
+        model = sexp.loads(ans)
+        inv = {v: k for k, v in ATTR.items()}
+        qual = {k: (lab[1] if lab else ('Service' if k == 0 else 'ABC')) for k, lab in enumerate(f.label)}
+        for seed, (ops, results) in info.items():
+            for op, r in zip(ops, results):
+                if op[0] != 'classinfo' or r[0] != 'cls':
+                    continue
+                k = f.index[(op[1], op[2])]
+                m = model[k]
+                mine = [m[0] == 'true', m[1] == 'true', sorted(inv.get(int(x), x) for x in m[2])]
+                real = [bool(r[1]), bool(r[2]), sorted(r[3])]
+                self.case(('cls', json.dumps(f.stmts[k]), json.dumps([f.stmts[x] for x in f.mro[k]])),
+                          f'class {"abstract" if real[1] else "concrete"}{" (extended only)" if real[1] and not real[0] else ""}',
+                          nontrivial=bool(f.ns[k]))
+                if mine != real:
+                    self.diverge('abstractness of a class', {'scenario': sc.to_json(), 'class': [op[1], op[2]]}, real, mine)
+                want = [qual[x] for x in f.mro[k]]
+                got = [q for q in r[4] if q in set(qual.values())]
+                if want != got:
+                    self.diverge('MRO assumed by the class table', {'scenario': sc.to_json(), 'class': [op[1], op[2]]}, got, want)
+            break  # class objects do not depend on the hash seed
+
     def _bank(self, nscen, seeds, kinds=None):
         gen = ScenGen(self.rng)
         kinds = kinds or ['clean-explicit', 'clean-explicit', 'clean-explicit', 'collision-explicit', 'abstract-alias',
-                          'clean-lazy', 'clean-lazy', 'clean-lazy', 'collision-lazy', 'preload']
-        scenarios = [v for i in range(nscen) for v in gen.variants(gen.make(kinds[i % len(kinds)]))]
+                          'clean-lazy', 'clean-lazy', 'clean-lazy', 'collision-lazy', 'preload', 'clean-lazy', 'nested-lazy']
+        scenarios, first = [], []
+        for i in range(nscen):
+            vs = gen.variants(gen.make(kinds[i % len(kinds)]))
+            first.append(len(scenarios))
+            scenarios += vs
+        import time
+        t0 = time.time()
         root = tempfile.mkdtemp(prefix='verif-c20-bank-')
         try:
-            runs = self._run_scenarios(scenarios, seeds, root)
+            outs = self._run_scenarios([(sc, self._orders(sc)) for sc in scenarios], seeds, root, classinfo=True)
         finally:
             shutil.rmtree(root, ignore_errors=True)
+        t1 = time.time()
         lines, metas = [], []
-        for i, order, seed, ops, results in runs:
-            line, names = self._model_line(scenarios[i], ops, results)
-            lines.append(line)
-            metas.append((i, order, seed, ops, results, names))
+        for i, o in enumerate(outs):
+            for order, seed, ops, results in o['runs']:
+                line, names = self._model_line(scenarios[i], ops, results)
+                lines.append(line)
+                metas.append((i, order, seed, ops, results, names, 'history'))
+            if i in first:  # the single-shot jobs of the variants of one world coincide largely: sent once
+                seen = set()
+                for j in range(i, min(i + 4, len(outs))):
+                    for (order, seed, key), (sops, sres) in outs[j]['singles'].items():
+                        if (order, seed, key) in seen:
+                            continue
+                        seen.add((order, seed, key))
+                        line, names = self._model_line(scenarios[i], sops, sres)
+                        lines.append(line)
+                        metas.append((i, list(order), seed, sops, sres, names, 'single'))
+        info_at = len(lines)
+        for i in first:
+            lines.append(sexp.dumps(['abstract', scenarios[i].facts().stmts]))
         answers = self.model(lines)
-        grouped: dict = {}
-        for (i, order, seed, ops, results, names), ans in zip(metas, answers):
+        self.notes.append(f'provider scenarios: {nscen} worlds x 4 histories, {len(lines)} processes compared with the model; '
+                          f'real code {t1 - t0:.0f}s, model {time.time() - t1:.0f}s')
+        for (i, order, seed, ops, results, names, what), ans in zip(metas, answers):
             sc = scenarios[i]
             impl = self._impl_canon(ops, results, names)
             mod = self._model_canon(ans)
             gets = [r for op, r in zip(ops, results) if op[0] == 'get']
-            self.case(('bank', json.dumps(sc.to_json(), sort_keys=True), tuple(order), seed),
-                      f'bank {sc.kind} imports={len(order)} {getattr(sc, "sequence", "hits-first")}', nontrivial=any(r[0] == 'ok' for r in gets),
-                      sample={'kind': sc.kind, 'order': order, 'seed': seed, 'queries': sc.queries[:4],
-                              'results': [r[:3] for r in gets[:4]]} if i < 2 and seed == seeds[0] and len(self.samples) < 8 else None)
+            self.case(('bank', json.dumps(sc.to_json(), sort_keys=True), tuple(order), seed, json.dumps(ops) if what == 'single' else ''),
+                      f'bank {sc.kind} imports={len(order)} {sc.sequence if what == "history" else "single-shot"}',
+                      nontrivial=any(r[0] == 'ok' for r in gets),
+                      sample={'kind': sc.kind, 'order': order, 'seed': seed, 'history': [o[1:] for o in ops[1:6]],
+                              'results': [r[:3] for r in results[1:6]]} if i < 2 and seed == seeds[0] and what == 'history'
+                      and len(self.samples) < 8 else None)
             if impl != mod:
                 k = next((j for j, (a, b) in enumerate(zip(impl, mod)) if a != b), None)
-                self.diverge('provider scenario outcome', {'scenario': sc.to_json(), 'order': order, 'seed': seed,
+                if sc.kind == 'collision-lazy' and k is not None and ops[k][0] == 'get' and (
+                        impl[k][0] == 'ok' or impl[k] == ['err', 'UnexpectedError']) and (
+                        mod[k][0] == 'ok' or mod[k] == ['err', 'UnexpectedError']):
+                    # which of two lazily colliding providers is met first is search priority, not the property (the oracle
+                    # judges that the answer does not depend on import order / hash seed): not compared with the model
+                    self.histogram['bank collision-lazy: other winner than the model (not judged)'] += 1
+                    continue
+                self.diverge('provider scenario outcome', {'scenario': sc.to_json(), 'order': order, 'seed': seed, 'ops': ops,
                                                            'first_diff_op': ops[k] if k is not None else None}, impl, mod)
-            grouped.setdefault(i, []).append((order, seed, ops, results))
-        for i, rs in grouped.items():
-            self._oracle(scenarios[i], rs)
+        for n, i in enumerate(first):
+            self._classinfo(scenarios[i], outs[i]['info'], answers[info_at + n])
+        before = len(self.violations)
+        for i, o in enumerate(outs):
+            self._oracle(scenarios[i], o['runs'], o['singles'])
+        self._shrink_new(before)
         return scenarios
+
+    # ---- shrinking a failing provider scenario on the real code ----
+    def _judge(self, cands, seeds):
+        """violations (by the oracle, on the real code) of each candidate (scenario, orders)"""
+        root = tempfile.mkdtemp(prefix='verif-c20-shrink-')
+        try:
+            outs = self._run_scenarios(cands, seeds, root, single_seeds=seeds)
+        finally:
+            shutil.rmtree(root, ignore_errors=True)
+        res = []
+        saved = self.violations
+        try:
+            for (sc, _), o in zip(cands, outs):
+                self.violations = []
+                self._oracle(sc, o['runs'], o['singles'])
+                res.append(self.violations)
+        finally:
+            self.violations = saved
+        return res
+
+    @staticmethod
+    def _smaller(sc: Scenario, order):
+        """candidates one step smaller: a history operation, a module, a class, a package, an `__all__` entry removed"""
+        out = []
+        hist = sc.history
+        for i in range(len(hist)):
+            if hist[i][0] == 'get':
+                out.append((sc.with_history(hist[:i] + hist[i + 1:]), order))
+        for slot in range(len(sc.imports)):
+            if slot < len(order):
+                mod = order[slot]
+                imports = [m for m in sc.imports if m != mod]
+                norder = [m for m in order if m != mod]
+                nh = []
+                for op in hist:
+                    if op[0] == 'import':
+                        if op[1] == slot:
+                            continue
+                        nh.append(['import', op[1] - (1 if op[1] > slot else 0)])
+                    else:
+                        nh.append(op)
+                v = Scenario(sc.ifc, sc.packages, imports, nh, sc.kind)
+                v.sequence = sc.sequence
+                out.append((v, norder))
+
+        def rebuilt(packages):
+            mods = {f'{p}.{s}' if s else p for p, pd in packages.items() for s in pd['mods']}
+            if any(m not in mods for m in sc.imports):
+                return None
+            ifc = dict(sc.ifc, base_paths=[p for p in sc.base_paths if p in packages or p == 'nopkg'],
+                       mid_paths=[p for p in sc.mid_paths if p in packages])
+            v = Scenario(ifc, packages, sc.imports, hist, sc.kind)
+            v.sequence = sc.sequence
+            return v
+
+        for pkg, pd in sc.packages.items():
+            if len(sc.packages) > 1:
+                v = rebuilt({p: x for p, x in sc.packages.items() if p != pkg})
+                if v:
+                    out.append((v, order))
+            for sub, clss in pd['mods'].items():
+                v = rebuilt({p: (x if p != pkg else {'all': x['all'], 'mods': {s: c for s, c in x['mods'].items() if s != sub}})
+                             for p, x in sc.packages.items()})
+                if v:
+                    out.append((v, order))
+                for ci, c in enumerate(clss):
+                    if any(d.get('base') == c['name'] for d in clss):
+                        continue
+                    v = rebuilt({p: (x if p != pkg else {'all': x['all'], 'mods': dict(x['mods'], **{sub: clss[:ci] + clss[ci + 1:]})})
+                                 for p, x in sc.packages.items()})
+                    if v:
+                        out.append((v, order))
+            if pd['all']:
+                v = rebuilt({p: (x if p != pkg else {'all': None, 'mods': x['mods']}) for p, x in sc.packages.items()})
+                if v:
+                    out.append((v, order))
+        return out
+
+    def _shrink_bank(self, v: fw.Violation, rounds: int = 14) -> fw.Violation:
+        """Greedy shrinking of a failing provider scenario: as long as some one-step-smaller candidate still violates the
+        property with the same signature on the real code (same hash seeds, same import order), continue with it."""
+        w = v.witness
+        if not isinstance(w, dict) or w.get('kind') != 'bank' or 'order' not in w:
+            return v
+        sc = Scenario.from_json(w['scenario'])
+        order, seeds = list(w['order']), list(w.get('seeds') or [0])
+        if 'at' in w:  # nothing after the failing lookup matters
+            ops_upto = w['at']
+            n, cut = 0, len(sc.history)
+            for i, op in enumerate(sc.history):
+                if op[0] == 'import' and op[1] >= len(order):
+                    continue
+                n += 1
+                if n == ops_upto:
+                    cut = i + 1
+                    break
+            sc = sc.with_history(sc.history[:cut])
+        best = None
+        for _ in range(rounds):
+            cands = self._smaller(sc, order)
+            if best is None:
+                cands = [(sc, order)] + cands  # the truncated scenario itself must still fail
+            if not cands:
+                break
+            res = self._judge([(c, [o]) for c, o in cands], seeds)
+            hit = next(((c, o, x) for (c, o), vs in zip(cands, res) for x in vs if x.signature == v.signature), None)
+            if hit is None:
+                break
+            sc, order, best = hit
+        if best is None:
+            return v
+        return fw.Violation(best.what, best.witness, best.signature, {'shrunk_from': v.what})
+
+    def _shrink_sections(self, v: fw.Violation) -> fw.Violation:
+        """greedy deletion of sources / keys (two levels) while the same query still resolves against the specification"""
+        w = v.witness
+        tmp = tempfile.mkdtemp(prefix='verif-c20-shrink-')
+        try:
+            def fails(srcs):
+                x = self.replay_finding({'witness': dict(w, raw=self._jsonable(srcs))})
+                return x is not None and x.signature == v.signature
+
+            cur = [dict(s) for s in self._unjson(w['raw'])]
+            changed = True
+            while changed:
+                changed = False
+                cands = [cur[:i] + cur[i + 1:] for i in range(len(cur)) if len(cur) > 1]
+                for i, src in enumerate(cur):
+                    for k in src:
+                        cands.append([dict((a, b) for a, b in x.items() if not (j == i and a == k)) for j, x in enumerate(cur)])
+                        if is_table(src[k]):
+                            for k2 in src[k]:
+                                c = [dict(x) for x in cur]
+                                c[i][k] = {a: b for a, b in src[k].items() if a != k2}
+                                cands.append(c)
+                                if is_table(src[k][k2]):
+                                    for k3 in src[k][k2]:
+                                        c = [dict(x) for x in cur]
+                                        c[i][k] = dict(src[k])
+                                        c[i][k][k2] = {a: b for a, b in src[k][k2].items() if a != k3}
+                                        cands.append(c)
+                for c in cands:
+                    if fails(c):
+                        cur, changed = c, True
+                        break
+            x = self.replay_finding({'witness': dict(w, raw=self._jsonable(cur))})
+            return fw.Violation(x.what, x.witness, x.signature, {'shrunk_from': v.what}) if x is not None else v
+        finally:
+            shutil.rmtree(tmp, ignore_errors=True)
+
+    def _shrink_new(self, before: int):
+        """shrink the first violation of every new signature (the others are reported through the same replay anyway)"""
+        known = {e['signature'] for e in fw._load_findings(self.ID) if e.get('status') == 'finding'}
+        seen = {x.signature for x in self.violations[:before]}
+        for idx in range(before, len(self.violations)):
+            x = self.violations[idx]
+            if x.signature in seen or x.signature in known:
+                continue
+            seen.add(x.signature)
+            if isinstance(x.witness, dict) and x.witness.get('kind') == 'bank':
+                try:
+                    self.violations[idx] = self._shrink_bank(x)
+                except fw.MachineryError:
+                    pass
+            elif isinstance(x.witness, dict) and x.witness.get('kind') in ('multi', 'section'):
+                self.violations[idx] = self._shrink_sections(x)
 
     def correspondence(self):
         self._config()
+        self._shrink_new(0)
         self._bank(self.n(20, 80), self.SEEDS_QUICK if self.quick else self.SEEDS_THOROUGH)
 
     def search(self, reason):
@@ -1159,10 +1987,42 @@ class C20(fw.Check):
                     break
         finally:
             shutil.rmtree(tmp, ignore_errors=True)
-        if (any(d.what.startswith('provider') for d in self.divergences) or not self.divergences) and 'bank' not in have:
-            self._bank(self.n(20, 60), self.SEEDS_THOROUGH)
+        if (any(d.what.startswith(('provider', 'abstractness', 'MRO')) for d in self.divergences) or not self.divergences) \
+                and 'bank' not in have:
+            # first the worlds whose outcome the model did not predict, with more histories; then new worlds
+            self._search_around()
+            if len(self.violations) == before:
+                self._bank(self.n(24, 60), self.SEEDS_THOROUGH)
         self.notes.append(f'failing-input search ({reason}): widened config stacks and provider scenarios, '
                           f'{len(self.violations) - before} violating input(s) found')
+
+    def _search_around(self):
+        """the worlds of the diverging cases again, each with many more lookup histories (prefixes of misses / hits of
+        other references / repeats before every lookup), judged by the oracle on the real code"""
+        gen = ScenGen(self.rng)
+        worlds, seen = [], set()
+        for d in self.divergences:
+            if isinstance(d.case, dict) and 'scenario' in d.case:
+                key = json.dumps([d.case['scenario'].get('ifc'), d.case['scenario']['packages']], sort_keys=True)
+                if key not in seen:
+                    seen.add(key)
+                    worlds.append(Scenario.from_json(d.case['scenario']))
+        before = len(self.violations)
+        for sc in worlds[:6]:
+            cands = []
+            for _ in range(6):
+                cands += gen.variants(sc)[1:]
+            outs = None
+            root = tempfile.mkdtemp(prefix='verif-c20-around-')
+            try:
+                outs = self._run_scenarios([(c, self._orders(c)[:2]) for c in cands], self.SEEDS_QUICK[:2], root)
+            finally:
+                shutil.rmtree(root, ignore_errors=True)
+            for c, o in zip(cands, outs):
+                self._oracle(c, o['runs'], o['singles'])
+            if len(self.violations) > before:
+                break
+        self._shrink_new(before)
 
     def _shrink_conf(self, eff, via, tmp):
         """Greedy deletion of sources / keys while the oracle still fails."""
@@ -1206,23 +2066,41 @@ class C20(fw.Check):
                 return None
             finally:
                 shutil.rmtree(tmp, ignore_errors=True)
+        if w.get('kind') == 'section':
+            tmp = tempfile.mkdtemp(prefix='verif-c20-replay-')
+            try:
+                eff = self._unjson(w['raw'])
+                impl, _, dupes, cfg, eff2 = self._conf_eval(eff, w['via'], tmp)
+                if isinstance(impl, tuple):
+                    return None
+                for (gname, ref), simpl, sspec, _ in self._sections(cfg, eff2):
+                    if gname == w['group'] and ref == w['ref'] and (
+                            (dedupe_canon(simpl) != dedupe_canon(sspec)) if dupes else (simpl != sspec)):
+                        return fw.Violation(f'section [{gname}.{ref}] resolved to {simpl} but the layered configuration says {sspec}',
+                                            w, 'section-resolution')
+                return None
+            finally:
+                shutil.rmtree(tmp, ignore_errors=True)
+        if w.get('kind') == 'multi':
+            tmp = tempfile.mkdtemp(prefix='verif-c20-replay-')
+            try:
+                eff = self._unjson(w['raw'])
+                impl, _, dupes, cfg, eff2 = self._conf_eval(eff, w['via'], tmp)
+                if isinstance(impl, tuple):
+                    return None
+                for what, q, mimpl, mspec in self._multi_sections(cfg, eff2):
+                    if what == w['what'] and q == w['query'] and mspec is not None and (
+                            (dedupe_canon(mimpl) != dedupe_canon(mspec)) if dupes else (mimpl != mspec)):
+                        return fw.Violation(f'[{what}] {q!r} resolved to {mimpl} but the layered configuration says {mspec}', w,
+                                            f'section-resolution-{what}')
+                return None
+            finally:
+                shutil.rmtree(tmp, ignore_errors=True)
         if w.get('kind') == 'bank':
             sc = Scenario.from_json(w['scenario'])
             seeds = w.get('seeds') or self.SEEDS_THOROUGH
-            root = tempfile.mkdtemp(prefix='verif-c20-replay-')
-            saved, self.violations = self.violations, []
-            try:
-                d = os.path.join(root, 's')
-                sc.write(d)
-                orders = [w['order']] if 'order' in w else [list(p) for p in itertools.permutations(sc.imports)]
-                jobs = [{'dir': d, 'ops': self._ops(sc, o)} for o in orders]
-                res = spawn_workers(jobs, seeds)
-                runs = [(o, s, j['ops'], r) for s in seeds for o, j, r in zip(orders, jobs, res[s])]
-                self._oracle(sc, runs)
-                found = self.violations
-            finally:
-                self.violations = saved
-                shutil.rmtree(root, ignore_errors=True)
+            orders = [w['order']] if 'order' in w else [list(p) for p in itertools.permutations(sc.imports)]
+            found = self._judge([(sc, orders)], seeds)[0]
             return found[0] if found else None
         return None
 
